@@ -14,6 +14,9 @@ pub uninterp spec fn has_slash(u: uri::Rsync) -> bool;
 pub uninterp spec fn ts(t: Time) -> i64;
 pub uninterp spec fn not_after_of(v: Validity) -> Time;
 pub uninterp spec fn csr_repo(c: CsrInfo) -> uri::Rsync;
+/// superset test of the resource algebra (uninterpreted; equal sets contain each other)
+pub uninterp spec fn rs_contains(a: ResourceSet, b: ResourceSet) -> bool;
+pub assume_specification [ResourceSet::contains] (a: &ResourceSet, b: &ResourceSet) -> (r: bool) ensures r == rs_contains(*a, *b), rs_same(*b, *a) ==> r;
 pub assume_specification [ResourceSet::difference] (a: &ResourceSet, b: &ResourceSet) -> (r: ResourceDiff) ensures diff_empty(r) == rs_same(*a, *b);
 pub assume_specification [ResourceDiff::is_empty] (d: &ResourceDiff) -> (r: bool) ensures r == diff_empty(*d);
 pub assume_specification [ResourceSet::all] () -> (r: ResourceSet) ensures is_all(r);
@@ -50,7 +53,7 @@ def build():
     U.outside('use vstd::std_specs::ops::*;')
     U.outside('''
 pub type ReceivedCert = CertInfo<Received>;
-impl ResourceSet { pub fn difference(&self, _o: &ResourceSet) -> ResourceDiff { unimplemented!() } pub fn all() -> ResourceSet { unimplemented!() } }
+impl ResourceSet { pub fn contains(&self, _o: &ResourceSet) -> bool { unimplemented!() } pub fn difference(&self, _o: &ResourceSet) -> ResourceDiff { unimplemented!() } pub fn all() -> ResourceSet { unimplemented!() } }
 impl ResourceDiff { pub fn is_empty(&self) -> bool { unimplemented!() } }
 impl uri::Rsync { pub fn ends_with(&self, _s: &str) -> bool { unimplemented!() } }
 impl CsrInfo { pub fn ca_repository(&self) -> &uri::Rsync { unimplemented!() } }
